@@ -1769,10 +1769,16 @@ class LinkTimeExpressionEvaluator(ConstantExpressionEvaluator):
             ):
                 value = self.codegenerator.ir_var_map[declaration]
                 cval = (ir.ptr, value.name)
-            else:  # pragma: no cover
-                raise NotImplementedError()
+            else:
+                self.unsupported_address(expr)
         elif isinstance(expr, expressions.CompoundLiteral):
             cval = self.eval_compound_literal(expr)
-        else:  # pragma: no cover
-            raise NotImplementedError()
+        else:
+            self.unsupported_address(expr)
         return cval
+
+    def unsupported_address(self, expr):
+        self.context.error(
+            "Unsupported address expression in a constant initializer",
+            expr.location,
+        )
